@@ -28,6 +28,7 @@ type Obligation struct {
 }
 
 type Engine struct {
+	knownSet map[string]bool
 	probing int
 	Trivial map[string]*Clause
 	cellTyp map[int]types.Type
@@ -808,7 +809,14 @@ func (m *Machine) binop(op token.Token, a, b Val, typ types.Type) Val {
 		case token.QUO:
 			// Go integer division truncates toward zero; division by zero panics
 			m.safeSite("div0", Neq(bt, IntLit(0)), "integer division by zero")
-			return App(SInt, "tdiv", at, bt)
+			q := App(SInt, "tdiv", at, bt)
+			if _, lit := isIntLit(bt); !lit {
+				// instance of the division lemma (a theorem of the definition of tdiv), stated on the product
+				// so that the nonlinear term the code forms later (divisor * quotient) is already constrained
+				m.AssumeT(Implies(And(Ge(at, IntLit(0)), Gt(bt, IntLit(0))),
+					And(Ge(q, IntLit(0)), Le(Mul(bt, q), at), Lt(at, Add(Mul(bt, q), bt)))))
+			}
+			return q
 		case token.REM:
 			m.safeSite("div0", Neq(bt, IntLit(0)), "integer modulo by zero")
 			return App(SInt, "tmod", at, bt)
